@@ -24,7 +24,7 @@ ASSUMPTIONS = [
     'say whose block counts); what is judged is that every flag is restored once all blocks have exited',
     're-assigning the identical object may raise or not; only "the held object did not change" is required',
 ]
-REQUIRED = {'class_relock_cases': 12, 'relock_failures_injected': 15, 'pending_references_offered_to_constants': 20, 'linked_constant_failed_deliveries': 20, 'forbidden_attempts': 3000, 'blocks': 500, 'blocks_raised': 100, 'flag_probes': 2000, 'ctor_constant_reference': 50,
+REQUIRED = {'rebinds_attempted_by_watcher_during_delivery': 6, 'class_relock_cases': 12, 'relock_failures_injected': 15, 'pending_references_offered_to_constants': 20, 'linked_constant_failed_deliveries': 20, 'forbidden_attempts': 3000, 'blocks': 500, 'blocks_raised': 100, 'flag_probes': 2000, 'ctor_constant_reference': 50,
             'ctor_constant_pending_reference': 50, 'library_attempts': 100, 'async_attempts': 100, 'observer_calls': 100, 'class_blocks': 50}
 
 _st = {}
@@ -233,9 +233,25 @@ def linked_constant_case(idx, rng, P, rep):
     g = Gauge(**kw)
     failing = [False]
 
+    meddling = rng.random() < 0.5
+    attempts = []
+
     def watcher(*events):
         if failing[0]:
             raise RuntimeError('watcher of the linked constant fails')
+        if meddling:
+            # told about a delivery, the watcher tries its hand at the constants that are NOT being delivered to
+            for name in ('serial', 'second'):
+                if name in kw:
+                    continue
+                rep.count('forbidden_attempts')
+                rep.count('rebinds_attempted_by_watcher_during_delivery')
+                try:
+                    setattr(g, name, 'W-9' if name == 'serial' else 9.75)
+                except TypeError:
+                    pass
+                else:
+                    attempts.append(name)
     if rng.random() < 0.6:
         g.param.watch(watcher, ['reading'] if rng.random() < 0.6 else ['reading', 'second', 'target'])
         watched = True
@@ -293,6 +309,10 @@ def linked_constant_case(idx, rng, P, rep):
                 rep.count('linked_constant_failed_deliveries')
             finally:
                 failing[0] = False
+        if attempts:
+            viol('rebind-allowed-outside-block/by-watcher-during-reference-delivery', f'{ops[-1]}: a watcher told about the delivery assigned to the '
+                 f'constant(s) {attempts} - not linked, no edit_constant block - and was not refused')
+            break
         probe(f'after {ops[-1]}')
         for name, ref in kw.items():
             want = getattr(src, ref.name)
